@@ -232,21 +232,35 @@ def basicCode (v : Nat) (ok : Bool) : Option Nat :=
 inductive CH | ok | cont (data : String) | err (code : Nat)
   deriving Repr, DecidableEq
 
+/-- the condition of the first `if` of `connectHandler`: `IsVersion3X(v) || (IsVersion5(v) && AuthMethod == nil)`.
+    `authMethod = none` is the Go `nil` (property absent); a property that is present with a zero-length value decodes
+    to a non-nil empty slice, here `some ""`. -/
+def basicBranch (c : ConnectPkt) : Bool := isV3 c.v || (c.v == 5 && c.authMethod.isNone)
+
+/-- the condition of the second `if`: `version == Version5 && AuthMethod != nil` (present, empty or not) -/
+def enhancedBranch (c : ConnectPkt) : Bool := c.v == 5 && c.authMethod.isSome
+
+/-- `basicAuth`: the OnBasicAuth chain -/
+def basicAuth (cfg : Cfg) (c : ConnectPkt) : CH :=
+  match cfg.basic with
+  | none => .ok
+  | some f => match basicCode c.v (f c.user c.pass) with | none => .ok | some code => .err code
+
+/-- `enhancedAuth`: fails closed without a hook -/
+def enhancedAuth (cfg : Cfg) (c : ConnectPkt) : CH :=
+  match c.authMethod, cfg.enh with
+  | some m, some h =>
+    (match h.onConnect m c.authData with
+     | .success => .ok
+     | .cont d => .cont d
+     | .fail code => .err code)
+  | _, _ => .err 0x80          -- "OnEnhancedAuth hook is nil"
+
+/-- `connectHandler`, as written: two independent `if`s, the second overriding the result of the first -/
 def connectHandler (cfg : Cfg) (c : ConnectPkt) : CH :=
   if !cfg.allowZeroLenCid && c.cidEmpty then .err 0x85 else
-  if isV3 c.v || (c.v == 5 && c.authMethod.isNone) then
-    match cfg.basic with
-    | none => .ok
-    | some f => match basicCode c.v (f c.user c.pass) with | none => .ok | some code => .err code
-  else if c.v == 5 then
-    match c.authMethod, cfg.enh with
-    | some m, some h =>
-      (match h.onConnect m c.authData with
-       | .success => .ok
-       | .cont d => .cont d
-       | .fail code => .err code)
-    | _, _ => .err 0x80          -- "OnEnhancedAuth hook is nil"
-  else .ok                      -- unreachable for decoded packets (v ∈ {3,4,5})
+  let r1 : CH := if basicBranch c then basicAuth cfg c else .ok      -- `err` stays nil when the branch is not taken
+  if enhancedBranch c then enhancedAuth cfg c else r1
 
 /-- the version `sendErrConnack` sees: connectHandler stores it only after the zero-length check -/
 def versionAfter (cfg : Cfg) (old : Nat) (c : ConnectPkt) : Nat :=
